@@ -115,6 +115,7 @@ type Kernel struct {
 	NextFile        int
 	FaultsLeft      int    // K-FAULT: how many more calls may fail
 	FaultAt         string // site of the injected fault ("" none), as "<site>#<occurrence>"
+	FaultOnly       string // when set, only this site may fail
 	FaultSeen       map[string]int
 	FaultProc       int
 	FaultErrno      syscall.Errno
@@ -211,7 +212,7 @@ func (p *Proc) LastIndexOf(name string) int {
 
 // K-FAULT: a call site may fail with an arbitrary errno when the harness enabled faults.
 func (k *Kernel) fault(site string) (syscall.Errno, bool) {
-	if k.FaultsLeft <= 0 {
+	if k.FaultsLeft <= 0 || (k.FaultOnly != "" && k.FaultOnly != site) {
 		return 0, false
 	}
 	if k.FaultSeen == nil {
